@@ -289,12 +289,23 @@ class C07(Prop):
             return rng.choice(ALPHA_UNI)
         return rng.choice(SURROGATES)
 
+    # multi-character motifs: sequences whose parts interact (CR LF pairs, runs of quotes, text that looks
+    # like an escape and must come back verbatim, a backslash at the end)
+    MOTIFS = ["\r\n", "\n\r", "\n\n", "''", '""', "'\"'", "\\\\", "\\'", '\\"', "\\n", "\\x41", "\\101", "\\u0041",
+              "a\\", "\\", "'''", '"""', "\r", "\t\n"]
+
     def _rand_value(self, rng: random.Random, kind: str) -> List[int]:
         n = rng.choice([0, 1, 1, 2, 3, 4, 6, 9])
-        if kind == "bytes":
-            pool = [0, 9, 10, 13, 34, 39, 92, 48, 55, 56, 65, 97, 127, 128, 0xC3, 0xA9, 0xE2, 0x80, 0xA8, 0xF0, 0x9F, 0x90, 0xB1, 0xFF, 0xFE, 0xC0]
-            return [rng.choice(pool) if rng.random() < 0.8 else rng.randrange(256) for _ in range(n)]
-        return [self._rand_cp(rng, False) for _ in range(n)]
+        out: List[int] = []
+        pool = [0, 9, 10, 13, 34, 39, 92, 48, 55, 56, 65, 97, 127, 128, 0xC3, 0xA9, 0xE2, 0x80, 0xA8, 0xF0, 0x9F, 0x90, 0xB1, 0xFF, 0xFE, 0xC0]
+        for _ in range(n):
+            if rng.random() < 0.18:
+                out += cps(rng.choice(self.MOTIFS))
+            elif kind == "bytes":
+                out.append(rng.choice(pool) if rng.random() < 0.8 else rng.randrange(256))
+            else:
+                out.append(self._rand_cp(rng, False))
+        return out
 
     def _struct_body(self, rng: random.Random) -> List[int]:
         out = []
@@ -338,7 +349,12 @@ class C07(Prop):
                 elif mode < 0.80:        # structured escape sequences, valid and near-miss
                     body = self._struct_body(rng)
                 else:                    # junk
-                    body = [self._rand_cp(rng, True) for _ in range(rng.choice([0, 1, 2, 3, 5, 8]))]
+                    body = []
+                    for _ in range(rng.choice([0, 1, 2, 3, 5, 8])):
+                        if rng.random() < 0.15:
+                            body += cps(rng.choice(self.MOTIFS))
+                        else:
+                            body.append(self._rand_cp(rng, True))
                 c = {"kind": kind, "q": q, "raw": raw, "R": rng.random() < 0.3, "B": rng.random() < 0.3, "body": body,
                      "via": rng.choice(["fn", "I", "C"]) if quick else None}
                 if value is not None:
